@@ -15,6 +15,9 @@ func init() {
 	reg(&Rule{ID: "R-C02-expbalance", Props: []string{"C02"}, Floor: 5,
 		Doc: "per compiler function, opexpbegin and opexpend emissions correspond 1:1, and a conditional opexpend has a removal of the pending opexpbegin on its other branch",
 		Run: ruleC02ExpBalance})
+	reg(&Rule{ID: "R-C02-marksweep", Props: []string{"C02"}, Floor: 3,
+		Doc: "update/updateObject/updateArrayIndex/updateArraySlice only mark deleted positions: no deletion-marker branch returns a resliced (shortened) array; only deleteEmpty shortens, after all paths were applied",
+		Run: ruleC02MarkSweep})
 	reg(&Rule{ID: "R-C01-patternvars", Props: []string{"C01"}, Floor: 1,
 		Doc: "every variable compilePattern binds by name (pushVariable) is appended to the list compileBind uses to reset variables between ?// alternatives",
 		Run: ruleC01PatternVars})
@@ -261,6 +264,37 @@ func ruleC02ExpBalance(c *Ctx, r *Rep) {
 			}
 			_ = info
 			if other == nil {
+				// idiom: the decision was taken earlier and kept in a boolean: `if !flag { remove }` … `if flag { emit end }`
+				if id, ok := unparen(ifs.Cond).(*ast.Ident); ok && !inElse {
+					rem := ""
+					ast.Inspect(end.Fn.Body, func(m ast.Node) bool {
+						i2, ok := m.(*ast.IfStmt)
+						if !ok {
+							return true
+						}
+						u, ok := unparen(i2.Cond).(*ast.UnaryExpr)
+						if !ok || u.Op != token.NOT {
+							return true
+						}
+						if x, ok := unparen(u.X).(*ast.Ident); !ok || info.ObjectOf(x) != info.ObjectOf(id) {
+							return true
+						}
+						ast.Inspect(i2.Body, func(q ast.Node) bool {
+							if as, ok := q.(*ast.AssignStmt); ok {
+								l, rr := c.Src(as.Lhs[0]), c.Src(as.Rhs[0])
+								if (strings.HasSuffix(l, ".op") && rr == "opnop") || (l == "c.codes" && strings.HasPrefix(rr, "c.codes[:")) {
+									rem = c.Pos(as.Pos())
+								}
+							}
+							return true
+						})
+						return true
+					})
+					if rem != "" {
+						r.OK(key, end.Lit.Pos(), "opexpend is emitted iff `%s`; the pending opexpbegin is removed under `!%s` at %s", id.Name, id.Name, rem)
+						continue
+					}
+				}
 				// the emission is guarded by a condition with no else: accepted only for the loop-position test `i == indexing`
 				if strings.Contains(test, "== indexing") {
 					r.OK(key, end.Lit.Pos(), "opexpend is emitted at the argument position that was bracketed (loop-position test %s)", test)
@@ -312,5 +346,65 @@ func ruleC01PatternVars(c *Ctx, r *Rep) {
 	})
 	if n == 0 {
 		r.Undecided("compilePattern", fd.Pos(), "no pushVariable call found")
+	}
+}
+
+func ruleC02MarkSweep(c *Ctx, r *Rep) {
+	info := c.Gojq.TypesInfo
+	isMarkerCmp := func(e ast.Expr) bool {
+		return mentions(e, func(x ast.Expr) bool {
+			be, ok := x.(*ast.BinaryExpr)
+			if !ok || be.Op != token.EQL {
+				return false
+			}
+			cl, ok := unparen(be.Y).(*ast.CompositeLit)
+			if !ok {
+				return false
+			}
+			st, ok := info.TypeOf(cl).Underlying().(*types.Struct)
+			return ok && st.NumFields() == 0
+		})
+	}
+	n := 0
+	for _, fn := range []string{"updateObject", "updateArrayIndex", "updateArraySlice"} {
+		fd := c.Decl(c.Gojq, fn)
+		if fd == nil {
+			r.Undecided(fn, token.NoPos, "not found")
+			continue
+		}
+		walkStack(fd.Body, func(m ast.Node, stack []ast.Node) bool {
+			rs, ok := m.(*ast.ReturnStmt)
+			if !ok || len(rs.Results) == 0 {
+				return true
+			}
+			// is this return inside a deletion-marker branch?  `if … n == struct{}{} …` or `case struct{}:`
+			inMarker := false
+			for i := len(stack) - 1; i >= 0; i-- {
+				switch x := stack[i].(type) {
+				case *ast.IfStmt:
+					if isMarkerCmp(x.Cond) {
+						inMarker = true
+					}
+				case *ast.CaseClause:
+					for _, e := range x.List {
+						if t := info.TypeOf(e); t != nil {
+							if st, ok := t.Underlying().(*types.Struct); ok && st.NumFields() == 0 {
+								inMarker = true
+							}
+						}
+					}
+				}
+			}
+			if !inMarker {
+				return true
+			}
+			n++
+			_, sliced := unparen(rs.Results[0]).(*ast.SliceExpr)
+			r.Check(!sliced, fn+":marker-return", rs.Pos(), "%s returns %s on a deletion-marker path: %s", fn, c.Src(rs.Results[0]), map[bool]string{true: "the array keeps its length (deletions are only marked; indices of later paths keep their original meaning)", false: "a RESLICED array — later negative indices and slice bounds of the same delpaths/del/|= empty are then resolved against the shortened length (`[0,1,2,3,4] | del(.[3:], .[-5])` gives [0,1,2] instead of [1,2])"}[!sliced])
+			return true
+		})
+	}
+	if n < 3 {
+		r.Undecided("census", token.NoPos, "only %d deletion-marker returns found", n)
 	}
 }
